@@ -8,9 +8,11 @@ import (
 	"hash/fnv"
 	"os"
 	"os/exec"
+	"path/filepath"
 	"reflect"
 	"sort"
 	"strings"
+	"time"
 
 	"github.com/AsaiYusuke/jsonpath"
 
@@ -396,6 +398,35 @@ func (j *c19Job) minimise(expected string) []int {
 // c19References computes, in one fresh subprocess per (path, config kind), the outcome of that
 // Parse performed first.
 func c19References() (map[string]string, error) {
+	// the workers of one run share the references through the run's scratch directory: the first
+	// one computes them (one fresh subprocess per operation), the others wait for the file
+	if dir := os.Getenv("VERIF_RUNDIR"); dir != "" {
+		file := filepath.Join(dir, "c19refs.json")
+		if lock, err := os.OpenFile(file+".lock", os.O_CREATE|os.O_EXCL|os.O_WRONLY, 0644); err == nil {
+			lock.Close()
+			refs, err := c19ComputeReferences()
+			if err != nil {
+				return nil, err
+			}
+			b, _ := json.Marshal(refs)
+			os.WriteFile(file+".tmp", b, 0644)
+			os.Rename(file+".tmp", file)
+			return refs, nil
+		}
+		for i := 0; i < 1200; i++ {
+			if b, err := os.ReadFile(file); err == nil {
+				refs := map[string]string{}
+				if json.Unmarshal(b, &refs) == nil && len(refs) > 0 {
+					return refs, nil
+				}
+			}
+			time.Sleep(100 * time.Millisecond)
+		}
+	}
+	return c19ComputeReferences()
+}
+
+func c19ComputeReferences() (map[string]string, error) {
 	refs := map[string]string{}
 	for pi := range c19Paths {
 		for ck := 0; ck < c19NumCfg; ck++ {
@@ -570,8 +601,9 @@ func (j *c19Job) RunUnit(i int, c *run.Ctx) {
 				continue
 			}
 			// depth pruning for the quick tier: the third operation ranges over a reduced alphabet
+			// third operation: the core alphabet (quick); also the reduced alphabet (thorough)
 			reduced := !(op < c19NumParse() && (op%c19NumCfg)%2 == 1 && (op/c19NumCfg)%3 != 0)
-			if len(hist) == 2 && !reduced && !(j.tier == "thorough" && c19Core(op)) {
+			if len(hist) == 2 && !c19Core(op) && !(j.tier == "thorough" && reduced) {
 				continue
 			}
 			// thorough tier, histories of length 4: operations 3 and 4 both from the core alphabet
@@ -737,8 +769,8 @@ func init() {
 			"the state hash covers every package-level variable (reflectively, unexported fields included; function values as nil/non-nil) and the pool contents; state hidden in closures of the generated matcher is outside the hash - part (i) does not depend on the hash",
 		},
 		Bounds: map[string]string{
-			"quick":    "operations: Parse of 23 paths (three of them longer than 64 / 128 / 1024 bytes, and the empty path; plain, filter function, aggregate, functions inside filters, nested parameters, and one failing at each action: bad integer, bad float, bad regex, bad string, unknown function after a known one, script, value-group comparison, two @ operands, trailing garbage) x 7 configs (none, {f}, {g}, {f'}, accessor, all, shared object) plus, for the plain / f / g paths, two Config arguments (shared object, fresh {f', h, g}) and a by-value copy of the shared object with accessor mode set on the copy, 'rebind f in the shared Config', 're-call an earlier function'; all histories of length <=2 and length 3 with a reduced third alphabet; BFS to fixpoint",
-			"thorough": "as quick, plus: third operation also over the core alphabet of 20 (the function, bad-regex, '$'-less and failing-parameter paths with no config / {f} / the shared object, rebind, re-call), and all histories of length 4 whose first two operations range over the full alphabet and whose last two over the core alphabet; BFS to fixpoint",
+			"quick":    "operations: Parse of 23 paths (three of them longer than 64 / 128 / 1024 bytes, and the empty path; plain, filter function, aggregate, functions inside filters, nested parameters, and one failing at each action: bad integer, bad float, bad regex, bad string, unknown function after a known one, script, value-group comparison, two @ operands, trailing garbage) x 7 configs (none, {f}, {g}, {f'}, accessor, all, shared object) plus, for the plain / f / g paths, two Config arguments (shared object, fresh {f', h, g}) and a by-value copy of the shared object with accessor mode set on the copy, 'rebind f in the shared Config', 're-call an earlier function'; all histories of length <=2 and length 3 with the third operation from the core alphabet (the function, bad-regex, '$'-less, failing-parameter, long and empty paths with no config / {f} / the shared object, rebind, re-call); BFS to fixpoint",
+			"thorough": "as quick, plus: third operation also over the reduced alphabet (every path with the even-numbered configs, every third path with all) (the function, bad-regex, '$'-less and failing-parameter paths with no config / {f} / the shared object, rebind, re-call), and all histories of length 4 whose first two operations range over the full alphabet and whose last two over the core alphabet; BFS to fixpoint",
 		},
 		New: newC19,
 		Replay: func(cs map[string]interface{}) (bool, string) {
